@@ -1,5 +1,362 @@
-import Robsd.Model.StepFile
+import Robsd.Lemmas.StepRow
+import Robsd.Lemmas.StepWrite
+/-
+  C01: step file writes round-trip.
+
+  * `parse_serialize`: for rows that are complete, typed as the field table
+    says and representable, `parse (serialize rows) = sort rows`;
+  * `reject_unchanged`, `exit0_new_state`: the exit-status contract of `-W`;
+  * `history_readable`: after any sequence of write commands (any ids, any
+    NUL-free arguments, accepted or rejected) starting from the empty file the
+    file parses, every row is well formed, and the accepted state is exactly
+    what a reader gets.
+-/
 namespace Robsd
 namespace C01
+open Bytes StepFile Interp
+
+theorem mem_insertRow (r x : Row) (rs : List Row) : x ∈ insertRow r rs ↔ x = r ∨ x ∈ rs := by
+  induction rs with
+  | nil => simp [insertRow]
+  | cons y ys ih =>
+    simp only [insertRow]
+    split
+    · simp
+    · simp only [List.mem_cons, ih]
+      constructor
+      · rintro (h | h | h)
+        · exact Or.inr (Or.inl h)
+        · exact Or.inl h
+        · exact Or.inr (Or.inr h)
+      · rintro (h | h | h)
+        · exact Or.inr (Or.inl h)
+        · exact Or.inl h
+        · exact Or.inr (Or.inr h)
+
+theorem mem_sortRows (x : Row) (rs : List Row) : x ∈ sortRows rs ↔ x ∈ rs := by
+  induction rs with
+  | nil => simp [sortRows]
+  | cons y ys ih =>
+    simp only [sortRows, List.foldr_cons, List.mem_cons]
+    rw [mem_insertRow]
+    simp only [sortRows] at ih
+    rw [ih]
+
+theorem lineOf_clean (r : Row) (h : RowOk r) : NL ∉ lineOf r ∧ (0 : UInt8) ∉ lineOf r := by
+  obtain ⟨s, n, e', d, dl, lg, u, t, sk, rfl, hs, he, hd, hdl, ht, hsk, hn, hlg, hu, hnn, hun⟩ := h.shape
+  constructor
+  · apply intercalateB_not_mem NL COMMA _ (by decide)
+    intro x hx
+    simp only [List.map_cons, List.map_nil, renderVal, List.mem_cons, List.not_mem_nil, or_false] at hx
+    rcases hx with rfl | rfl | rfl | rfl | rfl | rfl | rfl | rfl | rfl
+    · exact (renderInt_clean s).2.2.1
+    · exact hn.2.1
+    · exact (renderInt_clean e').2.2.1
+    · exact (renderInt_clean d).2.2.1
+    · exact (renderInt_clean dl).2.2.1
+    · exact hlg.2.1
+    · exact hu.2.1
+    · exact (renderInt_clean t).2.2.1
+    · exact (renderInt_clean sk).2.2.1
+  · apply intercalateB_not_mem 0 COMMA _ (by decide)
+    intro x hx
+    simp only [List.map_cons, List.map_nil, renderVal, List.mem_cons, List.not_mem_nil, or_false] at hx
+    rcases hx with rfl | rfl | rfl | rfl | rfl | rfl | rfl | rfl | rfl
+    · exact (renderInt_clean s).2.2.2.2
+    · exact hn.2.2.2
+    · exact (renderInt_clean e').2.2.2.2
+    · exact (renderInt_clean d).2.2.2.2
+    · exact (renderInt_clean dl).2.2.2.2
+    · exact hlg.2.2.2
+    · exact hu.2.2.2
+    · exact (renderInt_clean t).2.2.2.2
+    · exact (renderInt_clean sk).2.2.2.2
+
+theorem serializeRows_ok (rows : List Row) (h : ∀ r ∈ rows, RowOk r) :
+    serializeRows rows = some (rows.flatMap (fun r => lineOf r ++ [NL])) := by
+  induction rows with
+  | nil => rfl
+  | cons r rs ih =>
+    simp only [serializeRows, serializeRow_ok r (h r (by simp)), ih (fun x hx => h x (by simp [hx]))]
+    simp
+
+theorem parseRows_ok (rows : List Row) (h : ∀ r ∈ rows, RowOk r) :
+    parseRows names (rows.map lineOf) = some rows := by
+  induction rows with
+  | nil => rfl
+  | cons r rs ih =>
+    simp only [List.map_cons, parseRows, parseRow_ok r (h r (by simp)), ih (fun x hx => h x (by simp [hx]))]
+
+def headerLine : Bytes := intercalateB COMMA names
+
+theorem header_eq : header = headerLine ++ [NL] := by decide
+theorem parseHeader_ok : parseHeader headerLine = some names := by decide
+theorem headerLine_clean : NL ∉ headerLine ∧ (0 : UInt8) ∉ headerLine := by decide
+
+/-- the text of a file holding `rows` (already in file order) -/
+def fileOf (rows : List Row) : Bytes := header ++ rows.flatMap (fun r => lineOf r ++ [NL])
+
+theorem parseFile_fileOf (rows : List Row) (h : ∀ r ∈ rows, RowOk r) :
+    parseFile (fileOf rows) = some rows := by
+  have hshape : fileOf rows = (headerLine :: rows.map lineOf).flatMap (fun l => l ++ [NL]) := by
+    simp [fileOf, header_eq, List.flatMap_cons, List.flatMap_map]
+  have hnl : ∀ l ∈ headerLine :: rows.map lineOf, NL ∉ l := by
+    intro l hl
+    simp only [List.mem_cons, List.mem_map] at hl
+    rcases hl with rfl | ⟨r, hr, rfl⟩
+    · exact headerLine_clean.1
+    · exact (lineOf_clean r (h r hr)).1
+  have hnul : (0 : UInt8) ∉ fileOf rows := by
+    rw [hshape]
+    intro hm
+    simp only [List.mem_flatMap, List.mem_append, List.mem_singleton] at hm
+    obtain ⟨l, hl, hm | hm⟩ := hm
+    · simp only [List.mem_cons, List.mem_map] at hl
+      rcases hl with rfl | ⟨r, hr, rfl⟩
+      · exact headerLine_clean.2 hm
+      · exact (lineOf_clean r (h r hr)).2 hm
+    · exact absurd hm (by decide)
+  unfold parseFile fileLines visible
+  rw [cstr_eq_self_of_no_nul _ hnul]
+  have hne : fileOf rows ≠ [] := by
+    rw [hshape]; simp
+  simp only [hne, if_false]
+  rw [hshape, splitOn_lines _ hnl]
+  have e1 : ((headerLine :: rows.map lineOf) ++ [[]]).getLast? = some [] := List.getLast?_concat
+  have e2 : ((headerLine :: rows.map lineOf) ++ [[]]).dropLast = headerLine :: rows.map lineOf := List.dropLast_concat
+  simp only [e1, e2, if_true, parseHeader_ok, parseRows_ok rows h]
+
+/-- **Round trip**: well-formed rows serialise, and the result parses back to
+    the same rows, sorted by id. -/
+theorem parse_serialize (rows : List Row) (h : ∀ r ∈ rows, RowOk r) :
+    ∃ out, serializeFile rows = some out ∧ parseFile out = some (sortRows rows) := by
+  have hs : ∀ r ∈ sortRows rows, RowOk r := fun r hr => h r ((mem_sortRows r rows).mp hr)
+  refine ⟨fileOf (sortRows rows), ?_, parseFile_fileOf _ hs⟩
+  simp [serializeFile, serializeRows_ok _ hs, fileOf]
+
+/-! ### the exit-status contract of `robsd-step -W` -/
+
+/-- A write command that does not exit zero (and whose flush did not fail)
+    leaves the file byte-for-byte unchanged. -/
+theorem reject_unchanged (file : Bytes) (id : Int) (kvs : List Bytes) :
+    (writeCmd file id kvs .ok).1 ≠ 0 → (writeCmd file id kvs .ok).2 = file := by
+  unfold writeCmd
+  split
+  · intro _; rfl
+  · split
+    · intro _; rfl
+    · split
+      · intro _; rfl
+      · split
+        · intro _; rfl
+        · intro h; simp at h
+
+/-- Exit status zero means the flush succeeded and the file holds exactly the
+    serialisation of the new state — also when the file system misbehaves. -/
+theorem exit0_new_state (file : Bytes) (id : Int) (kvs : List Bytes) (flush : Flush)
+    (h : (writeCmd file id kvs flush).1 = 0) :
+    flush = .ok ∧ ∃ rows rows' out, parseFile file = some rows ∧ applyWrite rows id kvs = some rows' ∧
+      serializeFile rows' = some out ∧ writeCmd file id kvs flush = (0, out) := by
+  by_cases hid : id = 0 ∨ id < -intMax ∨ intMax < id ∨ kvs = []
+  · simp [writeCmd, hid] at h
+  · cases hp : parseFile file with
+    | none => simp [writeCmd, hid, hp] at h
+    | some rows =>
+      cases ha : applyWrite rows id kvs with
+      | none => simp [writeCmd, hid, hp, ha] at h
+      | some rows' =>
+        cases hs : serializeFile rows' with
+        | none => simp [writeCmd, hid, hp, ha, hs] at h
+        | some out =>
+          cases flush with
+          | failed l => simp [writeCmd, hid, hp, ha, hs] at h
+          | ok =>
+            refine ⟨rfl, rows, rows', out, rfl, ha, hs, ?_⟩
+            simp [writeCmd, hid, hp, ha, hs]
+
+/-- A failed flush never yields exit status zero. -/
+theorem flush_failure_reported (file : Bytes) (id : Int) (kvs : List Bytes) (left : Bytes) :
+    (writeCmd file id kvs (.failed left)).1 ≠ 0 := by
+  intro h
+  have := (exit0_new_state file id kvs (.failed left) h).1
+  cases this
+
+/-! ### histories -/
+
+/-- the state a file holds: it parses and every row is well formed -/
+def FileOk (file : Bytes) : Prop := ∃ rows, parseFile file = some rows ∧ ∀ r ∈ rows, RowOk r
+
+theorem write_preserves_inv (file : Bytes) (id : Int) (kvs : List Bytes) (hn : ∀ kv ∈ kvs, (0 : UInt8) ∉ kv)
+    (hfok : FileOk file) : FileOk (writeCmd file id kvs .ok).2 := by
+  by_cases hrc : (writeCmd file id kvs .ok).1 = 0
+  · obtain ⟨_, rows, rows', out, hp, ha, hs, hw⟩ := exit0_new_state file id kvs .ok hrc
+    obtain ⟨rows0, hp0, hok⟩ := hfok
+    rw [hp] at hp0
+    simp only [Option.some.injEq] at hp0
+    subst hp0
+    rw [hw]
+    -- every row of rows' serialises
+    have hser : ∀ r ∈ rows', ∃ o, serializeRow r = some o := by
+      unfold serializeFile at hs
+      cases hsr : serializeRows (sortRows rows') with
+      | none => simp [hsr] at hs
+      | some b =>
+        intro r hr
+        exact serializeRows_each _ b hsr r ((mem_sortRows r rows').mpr hr)
+    have hidr : InI64 id := by
+      have : ¬(id = 0 ∨ id < -intMax ∨ intMax < id ∨ kvs = []) := by
+        intro hbad; simp [writeCmd, hbad] at hrc
+      simp only [not_or, Int.not_lt] at this
+      obtain ⟨_, h1, h2, _⟩ := this
+      have a : intMax = 2147483647 := rfl
+      have b : i64Min = -9223372036854775808 := rfl
+      have c : i64Max = 9223372036854775807 := rfl
+      unfold InI64
+      omega
+    have hall : ∀ r ∈ rows', RowOk r := by
+      unfold applyWrite at ha
+      split at ha
+      · rename_i k hk
+        cases hsk : setKeyvals (rows[k]?.getD []) kvs with
+        | none => simp [hsk] at ha
+        | some r' =>
+          simp [hsk] at ha
+          subst ha
+          have hklt : k < rows.length := by
+            unfold findById at hk
+            exact (List.findIdx?_eq_some_iff_getElem.mp hk).1
+          have hbase : RowOk (rows[k]?.getD []) := by
+            rw [List.getElem?_eq_getElem hklt, Option.getD_some]
+            exact hok _ (List.getElem_mem hklt)
+          have hpre := setKeyvals_pre _ (rowOk_pre _ hbase) kvs hn r' hsk
+          intro r hr
+          rcases List.mem_or_eq_of_mem_set hr with hr | rfl
+          · exact hok r hr
+          · obtain ⟨o, ho⟩ := hser r hr
+            exact pre_complete_ok r hpre o ho
+      · cases hinit : initRow with
+        | none => simp [hinit] at ha
+        | some r0 =>
+          simp only [hinit] at ha
+          cases hsk : setKeyvals (r0.set stepIdx (.int id)) kvs with
+          | none => simp [hsk] at ha
+          | some r' =>
+            simp only [hsk, Option.some.injEq] at ha
+            subst ha
+            have hpre := setKeyvals_pre _ (init_pre id hidr r0 hinit) kvs hn r' hsk
+            intro r hr
+            simp only [List.mem_append, List.mem_singleton] at hr
+            rcases hr with hr | rfl
+            · exact hok r hr
+            · obtain ⟨o, ho⟩ := hser r (by simp)
+              exact pre_complete_ok r hpre o ho
+    obtain ⟨out', hs', hp'⟩ := parse_serialize rows' hall
+    rw [hs] at hs'
+    simp only [Option.some.injEq] at hs'
+    subst hs'
+    exact ⟨sortRows rows', hp', fun r hr => hall r ((mem_sortRows r rows').mp hr)⟩
+  · rw [reject_unchanged file id kvs hrc]
+    exact hfok
+
+/-- **History**: after any sequence of write commands from the empty file the
+    file is readable and every row is well formed. -/
+theorem history_readable (ws : List (Int × List Bytes))
+    (hn : ∀ w ∈ ws, ∀ kv ∈ w.2, (0 : UInt8) ∉ kv) :
+    FileOk (ws.foldl (fun file w => (writeCmd file w.1 w.2 .ok).2) []) := by
+  have gen : ∀ (ws : List (Int × List Bytes)) (file : Bytes), FileOk file →
+      (∀ w ∈ ws, ∀ kv ∈ w.2, (0 : UInt8) ∉ kv) →
+      FileOk (ws.foldl (fun file w => (writeCmd file w.1 w.2 .ok).2) file) := by
+    intro ws
+    induction ws with
+    | nil => intro file h _; exact h
+    | cons w ws ih =>
+      intro file h hn
+      simp only [List.foldl_cons]
+      exact ih _ (write_preserves_inv file w.1 w.2 (hn w (by simp)) h) (fun x hx => hn x (by simp [hx]))
+  exact gen ws [] ⟨[], by decide, by simp⟩ hn
+
+/-! ### order and frame -/
+
+/-- rows come out in ascending id order -/
+theorem insertRow_sorted (r : Row) (rs : List Row) (h : rs.Pairwise (fun a b => rowKey a ≤ rowKey b)) :
+    (insertRow r rs).Pairwise (fun a b => rowKey a ≤ rowKey b) := by
+  induction rs with
+  | nil => simp [insertRow]
+  | cons x xs ih =>
+    simp only [insertRow]
+    rw [List.pairwise_cons] at h
+    split
+    · rename_i hle
+      rw [List.pairwise_cons]
+      refine ⟨?_, List.pairwise_cons.mpr h⟩
+      intro y hy
+      simp only [List.mem_cons] at hy
+      rcases hy with rfl | hy
+      · exact hle
+      · exact Int.le_trans hle (h.1 y hy)
+    · rename_i hgt
+      rw [List.pairwise_cons]
+      refine ⟨?_, ih h.2⟩
+      intro y hy
+      rcases (mem_insertRow r y xs).mp hy with rfl | hy
+      · omega
+      · exact h.1 y hy
+
+theorem sortRows_sorted (rs : List Row) : (sortRows rs).Pairwise (fun a b => rowKey a ≤ rowKey b) := by
+  induction rs with
+  | nil => simp [sortRows]
+  | cons x xs ih => exact insertRow_sorted x _ ih
+
+/-- a write touches one row only: every other row of the old state is in the new state,
+    and every row of the new state is an old row or the written one -/
+theorem applyWrite_frame (rows rows' : List Row) (id : Int) (kvs : List Bytes)
+    (h : applyWrite rows id kvs = some rows') :
+    (∀ r ∈ rows, rowId r ≠ some id → r ∈ rows') ∧
+    (∃ base r', setKeyvals base kvs = some r' ∧ r' ∈ rows' ∧ ∀ x ∈ rows', x ∈ rows ∨ x = r') := by
+  unfold applyWrite at h
+  split at h
+  · rename_i k hk
+    cases hsk : setKeyvals (rows[k]?.getD []) kvs with
+    | none => simp [hsk] at h
+    | some r' =>
+      simp [hsk] at h
+      subst h
+      have hkspec := List.findIdx?_eq_some_iff_getElem.mp (by unfold findById at hk; exact hk)
+      obtain ⟨hklt, hkp, _⟩ := hkspec
+      constructor
+      · intro r hr hne
+        obtain ⟨i, hi, rfl⟩ := List.mem_iff_getElem.mp hr
+        have hik : i ≠ k := by
+          intro e; subst e
+          simp only [beq_iff_eq] at hkp
+          exact hne hkp
+        exact List.mem_iff_getElem.mpr ⟨i, by simp [hi], by rw [List.getElem_set_ne (Ne.symm hik)]⟩
+      · refine ⟨_, r', hsk, List.mem_iff_getElem.mpr ⟨k, by simp [hklt], by simp⟩, ?_⟩
+        intro x hx
+        rcases List.mem_or_eq_of_mem_set hx with hx | rfl
+        · exact Or.inl hx
+        · exact Or.inr rfl
+  · cases hinit : initRow with
+    | none => simp [hinit] at h
+    | some r0 =>
+      simp only [hinit] at h
+      cases hsk : setKeyvals (r0.set stepIdx (.int id)) kvs with
+      | none => simp [hsk] at h
+      | some r' =>
+        simp only [hsk, Option.some.injEq] at h
+        subst h
+        refine ⟨fun r hr _ => by simp [hr], _, r', hsk, by simp, ?_⟩
+        intro x hx
+        simp only [List.mem_append, List.mem_singleton] at hx
+        exact hx
+
+/-! ### non-vacuity -/
+private def row1 : Row := [.int 1, .str [101, 110, 118], .int 0, .int 5, .int 0, .str [], .str [114], .int 17, .int 0]
+private theorem row1_ok : RowOk row1 :=
+  ⟨⟨1, [101, 110, 118], 0, 5, 0, [], [114], 17, 0, rfl, by decide, by decide, by decide, by decide, by decide, by decide,
+    by decide, by decide, by decide, by decide, by decide⟩⟩
+example : ∃ out, serializeFile [row1] = some out ∧ parseFile out = some [row1] :=
+  parse_serialize [row1] (by intro r hr; simp at hr; subst hr; exact row1_ok)
+
 end C01
 end Robsd
